@@ -66,7 +66,14 @@ def cases(tier, seed):
            for i, c in enumerate(cfgs)]
     for n in range(1, (160 if th else 70) + 1):
         out.append({"kind": "helper", "n": n})
+    # direct calls of the step-size function under its local-optimality
+    # contract, far beyond what the schedules of this run request
+    for n in range(2, (900 if th else 260)):
+        out.append({"kind": "n_advance", "n": n,
+                    "smax": 40 if th else 16})
     rng.shuffle(out)
+    if th:
+        out.insert(0, {"kind": "suite", "file": "tests/test_multistage.py"})
     return out
 
 
@@ -74,9 +81,35 @@ def make_context(tier, seed):
     return S.make_context(tier, seed, ["n_advance", "optimal", "invariant"])
 
 
+def run_n_advance(case):
+    from checkpoint_schedules import multistage
+    from .. import contracts
+    n = case["n"]
+    calls = 0
+    viols = []
+    for s in range(1, case["smax"] + 1):
+        for tr in ("maximum", "revolve"):
+            try:
+                multistage.n_advance(n, s, trajectory=tr)
+                calls += 1
+            except Exception as e:
+                viols.append({"prop": "C05", "rule": "n_advance_raises",
+                              "msg": f"n_advance({n},{s},{tr}) raised {e!r}",
+                              "i": None, "action": None, "detail": {}})
+    viols += contracts.drain()
+    return {"violations": viols, "evals": {},
+            "counters": {"n_advance_direct_calls": calls},
+            "nontrivial": False, "key": f"n_advance n={n}"}
+
+
 def run_case(case, ctx):
     if case.get("kind") == "helper":
         return run_helper(case)
+    if case.get("kind") == "n_advance":
+        return run_n_advance(case)
+    if case.get("kind") == "suite":
+        from ..suite import suite_case
+        return suite_case(case)
     res = S.run_stream_case(case)
     cfg = case["cfg"]
     ex = res.ex
